@@ -188,6 +188,20 @@ CHECKS['C14'] = dict(
          'not modelled; in the model a missing sheet/book reference is a #REF! value.',
     technique='Lean 4 proof (locality on the workbook model) + fault injection with differential correspondence')
 
+CHECKS['C15'] = dict(
+    text=('Lean 4 theorems (XL.Props.C15): sub_model_equals_full — a model that keeps every definition relevant to an '
+          'address reachable from an output (the cell there or an array formula spilling over it) gives the output the '
+          'same value as the full model, for every workbook, keep-set and depth; restrict_all and restrict_idempotent '
+          '(completing a complete model changes nothing). The check writes random multi-sheet workbooks with names, '
+          'array formulas and whole-column references to .xlsx, compares from_ranges(*outs).finish().calculate() with '
+          'loads(file).finish().calculate() on every requested output (cells and rectangles), the full model with the '
+          'Lean model, and re-finishes every partial model (same nodes, same values).'),
+    design='DESIGN.md §3 C15',
+    note=COMMON_NOTE + 'The work-list of complete() (openpyxl sheet scans, file lookup and caching) is external: the theorem '
+         'states what the closure must contain, the check observes that the implementation achieves it. Cross-workbook '
+         'external links in .xlsx are not generated.',
+    technique='Lean 4 proof (evaluation locality on the workbook model) + partial-vs-full differential check')
+
 NOT_YET = {
 }
 
